@@ -262,9 +262,9 @@ func (prop) Generate(r *core.RNG, tier string) []json.RawMessage {
 	for _, f := range fixed {
 		out = append(out, marshal(f))
 	}
-	n := 700
+	n := 900
 	if tier == "thorough" {
-		n = 6000
+		n = 8000
 	}
 	for i := 0; i < n; i++ {
 		out = append(out, marshal(g.history(r.Chance(10))))
